@@ -1333,3 +1333,71 @@ PROPS["C10"] = Prop(
     _c10.rule + " Also CreateOutboard::init_from of the io-backed pre / post order outboards over a logging byte store (positioned writes and flush), and sinks "
     "that stop accepting bytes (Ok(0) -> WriteZero).",
     trusted=_c10.trusted, assumptions=_c10.assumptions)
+
+
+# ------------------------------------------------------------------ decoders polled again after an error
+F_POSTSTEP = Family("poststep", "Run.RunProto", "run_poststep", "holds_poststep", lambda a, o: len(o) > 8)
+F_POSTSTEP.shard_cases = 40
+F_POSTSTEP9 = Family("poststep9", "Run.RunProto", "run_poststep", "holds_poststep9", lambda a, o: len(o) > 8)
+F_POSTSTEP9.shard_cases = 40
+
+
+def gen_poststep(tier, rng):
+    cases = []
+    for (fam, args) in gen_c01(tier, rng)[:: (4 if tier == "quick" else 2)] + gen_c09(tier, rng)[:: (10 if tier == "quick" else 4)]:
+        for d in (0, 1):
+            b = list(args)
+            b[5] = d
+            cases.append(("poststep", b))
+    return cases
+
+
+def known_sync_post_error_panic(r):
+    """sync iterator polled again after it returned a hash mismatch: the pending-hash stack is one short"""
+    if r["family"] != "poststep9" or r["args"][5] != 0:
+        return False
+    o = r["obs_dev"]
+    ev = [o[i:i + 4] for i in range(0, len(o), 4)]
+    seen_mismatch = False
+    for e in ev:
+        if e[0] == 3 and e[1] in (3, 4):
+            seen_mismatch = True
+        if e[0] == 9:
+            return seen_mismatch
+    return False
+
+
+def known_fsm_post_error_ok(r):
+    """fsm decoder polled again after a ParentHashMismatch: the unverified halves were pushed, so items below
+    that pair are checked against attacker-chosen hashes and come back as Ok"""
+    if r["family"] != "poststep" or r["args"][5] != 1:
+        return False
+    o = r["obs_dev"]
+    ev = [o[i:i + 4] for i in range(0, len(o), 4)]
+    seen = False
+    for e in ev:
+        if e[0] == 3 and e[1] == 3:
+            seen = True
+        elif e[0] in (1, 2) and seen:
+            return True
+    return False
+
+
+KNOWN_CLASSES["sync_post_error_panic"] = known_sync_post_error_panic
+KNOWN_CLASSES["fsm_post_error_ok"] = known_fsm_post_error_ok
+
+_c01 = PROPS["C01"]
+PROPS["C01"] = Prop(
+    [F_DECODE, F_POSTSTEP], lambda tier, rng: gen_c01(tier, rng) + gen_poststep(tier, rng),
+    _c01.rule + " poststep: the same hostile streams with the iterator / state machine polled again after every error until it ends (at most 64 calls).",
+    assumptions=_c01.assumptions)
+_c09 = PROPS["C09"]
+PROPS["C09"] = Prop(
+    [F_DECODE, F_POSTSTEP9], lambda tier, rng: gen_c09(tier, rng) + [("poststep9", a) for (_, a) in gen_poststep(tier, rng)[::2]],
+    _c09.rule + " poststep: truncated / altered streams with the decoder polled again after the error (panic observable).",
+    assumptions=_c09.assumptions)
+_c04b = PROPS["C04"]
+PROPS["C04"] = Prop(
+    [F_ENCODE, F_BAO, F_SHORTW], lambda tier, rng: gen_c04(tier, rng) + gen_bao(tier, rng) + [c for c in gen_shortw(tier, rng) if c[1][4] == 0][::2],
+    _c04b.rule + " shortw: the sync validating encoder writing into sinks that take 1..4096 bytes per call (the encoding must not depend on the sink).",
+    trusted=_c04b.trusted)
